@@ -1,6 +1,6 @@
 #!/bin/bash
 # runs every registered quick check on the current tree; one line per property
-for id in C01 C02 C03 C04 C05 C06 C07 C08 C09 C10 C11 C12 C13 C14 C15 C16 C17 C18; do
+for id in ${VERIF_IDS:-C01 C02 C03 C04 C05 C06 C07 C08 C09 C10 C11 C12 C13 C14 C15 C16 C17 C18}; do
   out=$(bin/check $id --tier ${1:-quick} 2>&1 | grep -E "^VIOLATION|TOOL-ERROR|(quick|thorough):" | cut -c1-200 | tr '\n' ' ')
   echo "$id: $out"
 done
